@@ -497,6 +497,7 @@ def rule_lookahead_end(ctx, F):
     rets = [(pt, strip(e["e"])) for pt, e in fn.points() if e.get("k") == "ret"]
     inf = [pt for pt, r in rets if r.get("k") == "int" and r.get("v") == 4294967295]
     fin = [pt for pt, r in rets if not (r.get("k") == "int")]
+    bind(fn, "lookahead_end_byte", "end_byte_offset + ts_subtree_lookahead_bytes(tree)")
     d = [x for i in fn.ids_named("lookahead_end_byte") for x in fn.defs(i) if x is not None and x.get("k") != "uninit"]
     if d and M(fn).match("end_byte_offset + ts_subtree_lookahead_bytes(tree)", d[0]):
         ctx.ok("P9", "lookahead_end_byte:end-plus-lookahead", "the examined text ends at end_byte_offset + ts_subtree_lookahead_bytes(tree)")
